@@ -30,6 +30,92 @@ def _is_num(x):
     return isinstance(x, (numbers.Real, np.floating, np.integer, np.bool_)) and not isinstance(x, SReal)
 
 
+class Q(Fraction):
+    """exact rational constant that also absorbs python floats exactly, so
+    that concrete arithmetic inside a symbolic run is never rounded (a rounded
+    constant next to exact symbolic arithmetic would make T(T^-1(x)) differ
+    from x by an ulp and look like a violation)."""
+    __slots__ = ()
+
+    @staticmethod
+    def _c(o):
+        if isinstance(o, Fraction):
+            return o
+        if isinstance(o, (bool, np.bool_)):
+            return Fraction(int(o))
+        if isinstance(o, (int, np.integer)):
+            return Fraction(int(o))
+        if isinstance(o, (float, np.floating)):
+            f = float(o)
+            if f != f or f in (float('inf'), float('-inf')):
+                return None
+            return Fraction(f)
+        return None
+
+    @staticmethod
+    def _w(fr):
+        return Q(fr)
+
+    def __index__(self):
+        if self.denominator != 1:
+            raise TypeError('non-integral rational used as an index')
+        return self.numerator
+
+    def __repr__(self):
+        return str(self.numerator) if self.denominator == 1 else '%d/%d' % (self.numerator, self.denominator)
+    __str__ = __repr__
+
+    def __format__(self, spec):
+        return format(float(self) if self.denominator != 1 else self.numerator, spec)
+
+    def _op(self, o, f, swap=False):
+        c = Q._c(o)
+        if c is None:
+            if isinstance(o, (float, np.floating)):      # inf / nan: float semantics
+                a, b = (float(o), float(self)) if swap else (float(self), float(o))
+                with np.errstate(all='ignore'):
+                    return float(f(np.float64(a), np.float64(b)))
+            return NotImplemented
+        a, b = (c, Fraction(self)) if swap else (Fraction(self), c)
+        return Q._w(f(a, b))
+
+    def __add__(self, o): return self._op(o, lambda a, b: a + b)
+    def __radd__(self, o): return self._op(o, lambda a, b: a + b, True)
+    def __sub__(self, o): return self._op(o, lambda a, b: a - b)
+    def __rsub__(self, o): return self._op(o, lambda a, b: a - b, True)
+    def __mul__(self, o): return self._op(o, lambda a, b: a * b)
+    def __rmul__(self, o): return self._op(o, lambda a, b: a * b, True)
+
+    def __truediv__(self, o):
+        c = Q._c(o)
+        if c is None:
+            return NotImplemented
+        if c == 0:
+            return float(self) / 0.0 if False else (float('inf') if self > 0 else float('-inf'))
+        return Q._w(Fraction(self) / c)
+
+    def __rtruediv__(self, o):
+        c = Q._c(o)
+        if c is None:
+            return NotImplemented
+        return Q._w(c / Fraction(self))
+
+    def __neg__(self): return Q._w(-Fraction(self))
+    def __abs__(self): return Q._w(abs(Fraction(self)))
+
+    def __pow__(self, e):
+        if isinstance(e, (int, np.integer)):
+            return Q._w(Fraction(self) ** int(e))
+        return float(self) ** e
+
+    def __hash__(self):
+        return Fraction.__hash__(self)
+
+    def sqrt(self):
+        import math
+        return math.sqrt(self)
+
+
 def to_fraction(x):
     if isinstance(x, (bool, np.bool_)):
         return Fraction(int(x))
@@ -82,7 +168,7 @@ def mk(t):
     constants concrete so that real numpy code paths keep working)."""
     v = zval(t)
     if v is not None:
-        return int(v) if v.denominator == 1 else v
+        return int(v) if v.denominator == 1 else Q(v)
     return SReal(t)
 
 
@@ -241,7 +327,7 @@ def arith(op, a, b):
         fa, fb = to_fraction(a), to_fraction(b)
         r = {'+': lambda: fa + fb, '-': lambda: fa - fb, '*': lambda: fa * fb,
              '/': lambda: fa / fb}[op]()
-        return int(r) if r.denominator == 1 else r
+        return int(r) if r.denominator == 1 else Q(r)
     if op == '+':
         if an and a == 0: return b
         if bn and b == 0: return a
